@@ -857,7 +857,7 @@ class SectorWorld:
             if len(g) != 1:
                 raise Undecided("scan call without a subgraph argument")
             k = g[0].key_
-            return Tup([Num(Expr.zero(), ent="scan(%s)" % k), world.GraphIdVal("pop(%s,scan(%s))" % (k, k))])
+            return Tup([Num(Expr.zero(), ent="scan(%s)" % k), world.GraphIdVal("pop(%s,«scan(%s)»)" % (k, k))])
 
         hooks = {read.path: read_hook, scan.path: scan_hook}
         for key, b in f.mir.items():
@@ -908,11 +908,18 @@ def sector_world(ctx):
 
 
 def run_c07(ctx):
-    ctx.rule("C07-a", "one iteration of the sector loop: x[edge] := κ; graph := graph∖edge; if edges remain κ := κ·ξ^(1/ω[graph∖edge]) with ξ a fresh read")
-    ctx.rule("C07-b", "u_trop *= x[edge] exactly when the loop number drops; v_trop := x[edge] exactly when spanning → not spanning (table flags of graph and graph∖edge)")
+    iteration_clauses(ctx, "C07-a", "C07-b", True)
+    run_rescaling(ctx, "C07")
+
+
+def iteration_clauses(ctx, RA, RB, emit_a):
+    if emit_a:
+        ctx.rule(RA, "one iteration of the sector loop: x[edge] := κ; graph := graph∖edge; if edges remain κ := κ·ξ^(1/ω[graph∖edge]) with ξ a fresh read")
+    ctx.rule(RB, "in EVERY iteration (last edge included) u_trop *= x[edge] exactly when the loop number drops; v_trop := x[edge] exactly when spanning → not "
+                 "spanning (table flags of graph and graph∖edge)")
     w = sector_world(ctx)
     if not w.ok:
-        ctx.ob("C07-a", "sector routine summarised", False, "sampling::permatuhedral_sampling", "kernel-undecided", detail="kernel-undecided: %s" % w.error)
+        ctx.ob(RB, "sector routine summarised", False, "sampling::permatuhedral_sampling", "kernel-undecided", detail="kernel-undecided: %s" % w.error)
         return
     fn = w.sector.path
     ctx.fn(fn)
@@ -935,15 +942,15 @@ def run_c07(ctx):
             kap = scalar_of(xv.rules[0].value, "stored value") if ok_x else None
             kap_ok = ok_x and kap.is_monomial() and len(kap.terms[0].atoms) == 1 and kap.terms[0].coeff == 1
             kname = kap.terms[0].atoms[0][0][1] if kap_ok else None
-            ctx.ob("C07-a", "[%s] exactly one parameter is written per iteration: x[edge] := κ (κ = `%s`)" % (label, kname), bool(kap_ok), fn,
+            (ctx.ob if emit_a else (lambda *a_, **k_: None))(RA, "[%s] exactly one parameter is written per iteration: x[edge] := κ (κ = `%s`)" % (label, kname), bool(kap_ok), fn,
                    "x-edge-gets-kappa:" + label, detail="rules %s" % [(r.index, r.op) for r in xv.rules])
             if not kap_ok:
                 return
-            g2 = "pop(%s,%s)" % (gname, edge)
-            ctx.ob("C07-a", "[%s] graph := graph∖edge for the same edge" % label, gv.key_ == g2, fn, "graph-pop-edge:" + label,
+            g2 = "pop(%s,«%s»)" % (gname, edge)
+            (ctx.ob if emit_a else (lambda *a_, **k_: None))(RA, "[%s] graph := graph∖edge for the same edge" % label, gv.key_ == g2, fn, "graph-pop-edge:" + label,
                    detail="graph becomes %s, expected %s" % (gv.key_, g2))
             # break exactly when the remaining graph is empty
-            ctx.ob("C07-a", "[%s] the loop is left right after the removal iff the remaining graph is empty" % label,
+            (ctx.ob if emit_a else (lambda *a_, **k_: None))(RA, "[%s] the loop is left right after the removal iff the remaining graph is empty" % label,
                    tr["breaks"] == ["empty(%s)" % g2] and not tr["always_breaks"], fn, "break-iff-empty:" + label, detail="break conditions %s" % tr["breaks"])
             # kappa update on the continuing path
             kpost = scalar_of(post[kname], "κ'")
@@ -954,7 +961,7 @@ def run_c07(ctx):
                 a, ex = ratio.terms[0].atoms[0]
                 want_ex = 1 / sp.Symbol("omega(%s)" % g2, positive=True)
                 ok_k = a[0] == "leaf" and a[1] == "read" and sp.simplify(ex - want_ex) == 0
-            ctx.ob("C07-a", "[%s] κ' = κ·ξ^(1/ω[graph∖edge]) with ξ a read of this iteration" % label, ok_k, fn, "kappa-recurrence:" + label, detail=det)
+            (ctx.ob if emit_a else (lambda *a_, **k_: None))(RA, "[%s] κ' = κ·ξ^(1/ω[graph∖edge]) with ξ a read of this iteration" % label, ok_k, fn, "kappa-recurrence:" + label, detail=det)
             # b: tropical bookkeeping
             span_key = "(spanning(%s) And !(spanning(%s)))" % (gname, g2)
             loops_key = "%s Lt %s" % (Expr.atom(("call", "loops", g2)).key(), Expr.atom(("call", "loops", gname)).key())
@@ -967,15 +974,14 @@ def run_c07(ctx):
                     found_v = n
                 if e == Expr.atom(("ite", loops_key, K * Expr.leaf(n), Expr.leaf(n))):
                     found_u = n
-            ctx.ob("C07-b", "[%s] V_tr bookkeeping: v := x[edge] iff spanning(graph) ∧ ¬spanning(graph∖edge) (`%s`)" % (label, found_v), found_v is not None, fn,
+            ctx.ob(RB, "[%s] V_tr bookkeeping: v := x[edge] iff spanning(graph) ∧ ¬spanning(graph∖edge) (`%s`)" % (label, found_v), found_v is not None, fn,
                    "v-trop-update:" + label, detail="state after the iteration: %s" % {n: scalar_of(post[n], n).key()[:200] for n in vnames})
-            ctx.ob("C07-b", "[%s] U_tr bookkeeping: u *= x[edge] iff loops(graph∖edge) < loops(graph) (`%s`)" % (label, found_u), found_u is not None, fn,
+            ctx.ob(RB, "[%s] U_tr bookkeeping: u *= x[edge] iff loops(graph∖edge) < loops(graph) (`%s`)" % (label, found_u), found_u is not None, fn,
                    "u-trop-update:" + label, detail="state after the iteration: %s" % {n: scalar_of(post[n], n).key()[:200] for n in vnames})
             others = [n for n in vnames if n not in (found_u, found_v) and scalar_of(post[n], n) != Expr.leaf(n)]
-            ctx.ob("C07-b", "[%s] no other scalar state changes in an iteration" % label, not others, fn, "other-state:" + label, detail="also modified: %s" % others)
+            ctx.ob(RB, "[%s] no other scalar state changes in an iteration" % label, not others, fn, "other-state:" + label, detail="also modified: %s" % others)
             w.names = {"x": xname, "kappa": kname, "u": found_u, "v": found_v, "graph": gname}
-        guarded_clause(ctx, "C07-a", fn, "iteration:" + label, body)
-    run_rescaling(ctx, "C07")
+        guarded_clause(ctx, RA if emit_a else RB, fn, "iteration:" + label, body)
 
 
 def run_rescaling(ctx, pid):
@@ -1032,6 +1038,269 @@ def run_rescaling(ctx, pid):
         ctx.ob(rc, "the returned tropical polynomials are the constant 1", ones, fn, "returned-trop-one",
                detail="%s" % {n: scalar_of(v, n).key() for n, v in scal})
     guarded_clause(ctx, rc, fn, "rescaling", body)
+
+
+# ---------------------------------------------------------------------------------------------------
+# C03 / C04: the table builder
+
+def edges_of(ent):
+    cls = "edges(«%s»)" % ent
+    return Arr((cls,), lambda k: Num(Expr.leaf("$ix", k), ent=k), name="edges")
+
+
+def graph_hooks(ctx, seen):
+    """Abstractions of the graph-algorithm routines (their correctness is NOT decided): loop number and spanning flag of an edge set."""
+    def loops_hook(I, c, a):
+        e = a[1]
+        seen.setdefault("loops", []).append(e.classes[0] if isinstance(e, Arr) else None)
+        if isinstance(e, Arr) and e.classes == ("E",) and e.name == "range":
+            return num_size("L")
+        if isinstance(e, Arr):
+            return Num(Expr.atom(("call", "loops", str(e.classes[0]))))
+        raise Undecided("loop-number routine applied to %r" % (e,))
+
+    def span_hook(I, c, a):
+        e = a[1]
+        seen.setdefault("span", []).append(e.classes[0] if isinstance(e, Arr) else None)
+        if isinstance(e, Arr):
+            return Cond("key", "spanning(%s)" % str(e.classes[0]))
+        raise Undecided("spanning routine applied to %r" % (e,))
+
+    def contains_hook(I, c, a):
+        g = a[0]
+        if isinstance(g, Struct) and "id" in g.fields and isinstance(g.fields["id"], Num) and g.fields["id"].ent is not None:
+            return edges_of(g.fields["id"].ent)
+        return NotImplemented
+    hooks = {}
+    f = ctx.facts
+    for key, b in f.mir.items():
+        nm = (f.fns.get(b.path) or {}).get("name")
+        if nm == "get_loop_number":
+            hooks[b.path] = loops_hook
+        elif nm == "is_mass_momentum_spanning":
+            hooks[b.path] = span_hook
+        elif nm == "contains_edges":
+            hooks[b.path] = contains_hook
+    return hooks
+
+
+def builder_roles(ctx):
+    R = ctx.roles
+    bs = R.build_sampler()
+    fg = tb = None
+    for bi, t, cb in R.local_callees(bs):
+        if cb.local_ty(0).startswith("core::result::Result<"):
+            tb = cb
+        elif "TropicalGraph" in cb.local_ty(0):
+            fg = cb
+    if fg is None or tb is None:
+        raise RoleLost("from_graph / table_builder: the two callees of build_sampler")
+    jrec = None
+    for bi, t, cb in R.local_callees(tb):
+        bodies = [cb] + list(ctx.facts.closures_of(cb.path))
+        if any(x is cb for b_ in bodies for _b, _t, x in R.local_callees(b_)):
+            jrec = cb
+    if jrec is None:
+        raise RoleLost("jrec: the self-recursive callee of the table builder")
+    return bs, fg, tb, jrec
+
+
+def graph_param():
+    return world.Model("Graph", {
+        "edges": lambda: Arr(("E",), lambda e: world.Model("Edge", {
+            "vertices": lambda _e=e: Tup([Num(Expr.leaf("vl", _e)), Num(Expr.leaf("vr", _e))]),
+            "is_massive": lambda _e=e: Cond("key", "massive[«%s»]" % _e),
+            "weight": lambda _e=e: Num(Expr.leaf("w", _e))}), name="edges"),
+        "externals": lambda: Opaque("externals")})
+
+
+def run_c03(ctx):
+    ctx.rule("C03-a", "from_graph: dod = Σ_e w_e − L·D/2 with L the loop-number routine on all edges and D the dimension argument; num_loops = L; "
+                      "TropicalEdge fields copied from the like-named Edge fields; num_massive_edges = |{e: is_massive}|; external_vertices = externals")
+    ctx.rule("C03-b", "table builder, entry of subset i: generalized dod = [i≠∅]·(Σ_{e∈i} w_e − ℓ(i)·D/2 − [spanning(i)]·dod) + [i=∅]·1, and the stored "
+                      "loop number / spanning flag are the values of the same routines on the same edge set")
+    ctx.rule("C03-c", "get_dimension = 2E − 1 + D·L + (D·L mod 2)")
+    ctx.rule("C03-d", "getters return the stored quantities (get_dod, get_num_edges, iter_edge_weights in index order)")
+    f = ctx.facts
+    try:
+        bs, fg, tb, jrec = builder_roles(ctx)
+    except RoleLost as e:
+        return ctx.lost("C03-a", str(e))
+    ctx.fn(fg.path, tb.path)
+    seen = {}
+    hooks = graph_hooks(ctx, seen)
+
+    def a():
+        I = Interp(f, models=dict(hooks))
+        res = I.run_fn(fg.path, [graph_param(), Num(Expr.symbol("D"), size="D")])
+        if not isinstance(res, Struct):
+            raise Undecided("from_graph result")
+        e = fresh("e")
+        want = ssum(leaf("w", e), e, "E") - Expr.symbol("L") * Expr.symbol("D") * Expr.const(sp.Rational(1, 2))
+        compare(ctx, "C03-a", "dod == Σ_e w_e − L·D/2", scalar_of(res.fields["dod"], "dod"), want, fg.path, "dod-formula", {}, ())
+        ctx.ob("C03-a", "num_loops is the loop-number routine's value on all edges", scalar_of(res.fields["num_loops"], "num_loops") == Expr.symbol("L")
+               and seen.get("loops", [None])[0] == "E", fg.path, "num-loops")
+        te = res.fields["topology"].at("e")
+        ok = (scalar_of(te.fields["weight"], "weight") == leaf("w", "e") and scalar_of(te.fields["left"], "left") == leaf("vl", "e")
+              and scalar_of(te.fields["right"], "right") == leaf("vr", "e") and isinstance(te.fields["is_massive"], Cond)
+              and te.fields["is_massive"].key() == "massive[«e»]" and scalar_of(te.fields["edge_id"], "edge_id") == leaf("$ix", "e"))
+        ctx.ob("C03-a", "topology[e] = (id e, left, right, weight, is_massive) of input edge e", ok, fg.path, "edge-field-copy")
+        nm = scalar_of(res.fields["num_massive_edges"], "num_massive_edges")
+        ctx.ob("C03-a", "num_massive_edges counts the massive edges", nm == Expr.atom(("call", "count", "{§∈E | massive[«§»]}")), fg.path, "num-massive",
+               detail="num_massive_edges = %s" % nm.key())
+        ev = res.fields["external_vertices"]
+        ctx.ob("C03-a", "external_vertices is the input's externals", isinstance(ev, Opaque) and ev.name == "externals", fg.path, "externals-copy")
+    guarded_clause(ctx, "C03-a", fg.path, "from-graph", a)
+
+    def b():
+        tw = table_world(ctx)
+        r = tw.result
+        ent = r.fields["table"].at("i")
+        cls = "edges(«i»)"
+        k = fresh("k")
+        W = ssum(leaf("w", k), k, cls)
+        ell = Expr.atom(("call", "loops", cls))
+        half = Expr.const(sp.Rational(1, 2))
+        base = W - ell * Expr.symbol("D") * half
+        want = Expr.atom(("ite", "spanning(%s)" % cls, base - Expr.symbol("dod"), base)).guarded([("!=", "i", 0)]) + Expr.const(1).guarded([("=", "i", 0)])
+        compare(ctx, "C03-b", "generalized_dod(i) == [i≠0]·ite(spanning, W−ℓD/2−dod, W−ℓD/2) + [i=0]·1", scalar_of(ent.fields["generalized_dod"], "gdod"), want,
+                tb.path, "generalized-dod", {"i": "2^E"}, ())
+        ctx.ob("C03-b", "stored loop_number is ℓ(edges of i)", scalar_of(ent.fields["loop_number"], "loop_number") == ell, tb.path, "stored-loop-number")
+        sp_ = ent.fields["mass_momentum_spanning"]
+        ctx.ob("C03-b", "stored flag is spanning(edges of i)", isinstance(sp_, Cond) and sp_.key() == "spanning(%s)" % cls, tb.path, "stored-spanning-flag")
+        dim = r.fields["dimension"]
+        ctx.ob("C03-b", "the table stores the dimension argument", scalar_of(dim, "dimension") == Expr.symbol("D"), tb.path, "stored-dimension")
+    guarded_clause(ctx, "C03-b", tb.path, "table-entry", b)
+
+    def c():
+        dimfn, dim = dimension_formula(ctx)
+        n = Expr.symbol("D") * Expr.symbol("L")
+        want = Expr.const(2) * Expr.symbol("E") - Expr.const(1) + n + Expr.atom(("call", "mod", n, Expr.const(2)))
+        compare(ctx, "C03-c", "get_dimension == 2E − 1 + D·L + (D·L mod 2)", dim, want, dimfn.path, "dimension-formula", {}, ())
+    guarded_clause(ctx, "C03-c", "SampleGenerator::get_dimension", "dimension", c)
+
+    def d():
+        sg = world.Model("SampleGenerator", {"table": world.table, "loop_signature": world.signature})
+        for name, want in (("get_dod", Expr.symbol("dod")), ("get_num_edges", Expr.symbol("E"))):
+            bs_ = [b for b in f.mir.values() if (f.fns.get(b.path) or {}).get("name") == name and "SampleGenerator" in ((f.fns.get(b.path) or {}).get("impl_self") or "")]
+            if len(bs_) != 1:
+                raise Undecided("getter %s" % name)
+            ctx.fn(bs_[0].path)
+            I = Interp(f)
+            res = I.run_fn(bs_[0].path, [sg])
+            ctx.ob("C03-d", "%s returns the stored quantity" % name, scalar_of(res, name) == want, bs_[0].path, "getter:" + name, detail="returns %s" % scalar_of(res, name).key())
+        bs_ = [b for b in f.mir.values() if (f.fns.get(b.path) or {}).get("name") == "iter_edge_weights"]
+        if len(bs_) == 1:
+            I = Interp(f)
+            res = I.run_fn(bs_[0].path, [sg])
+            ok = isinstance(res, Arr) and res.classes == ("E",) and scalar_of(res.at("e"), "weight") == leaf("w", "e")
+            ctx.ob("C03-d", "iter_edge_weights yields topology[e].weight in index order", ok, bs_[0].path, "getter:iter_edge_weights")
+    guarded_clause(ctx, "C03-d", "SampleGenerator", "getters", d)
+
+
+class TableWorld:
+    def __init__(self, ctx):
+        f = ctx.facts
+        bs, fg, tb, jrec = builder_roles(ctx)
+        self.seen = {}
+        hooks = graph_hooks(ctx, self.seen)
+
+        def jhook(I, c, a):
+            pr = None
+            for x in I.raw_args:
+                from ..kern.interp import PlaceRef
+                if isinstance(x, PlaceRef):
+                    pr = x
+            if pr is None:
+                raise Undecided("J recursion is not handed the table by &mut")
+            cur = I.read_place(pr.var, pr.path, I.cur_env)
+            from ..kern.interp import Rule
+            newv = cur.with_rule(Rule(("jj",), "=", Opt(True, Num(Expr.atom(("call", "J", ("ix", "jj"))))), (("jj", cur.classes[0]),), (), ("j_function",)))
+            I.update(pr.var, pr.path, "=", newv, I.cur_env)
+            self.jcall_arg = a[0]
+            return Num(Expr.symbol("Jfull"))
+        hooks[jrec.path] = jhook
+        I = Interp(f, models=hooks)
+        self.I = I
+        res = I.run_fn(tb.path, [world.tropical_graph(), Num(Expr.symbol("D"), size="D")])
+        if not (isinstance(res, Opt) and res.some is True and isinstance(res.payload, Struct)):
+            raise Undecided("table builder has no Ok(table) main path")
+        self.result = res.payload
+        self.tb = tb
+
+
+_tworlds = {}
+
+
+def table_world(ctx):
+    key = id(ctx.facts)
+    if key not in _tworlds:
+        _tworlds[key] = TableWorld(ctx)
+    return _tworlds[key]
+
+
+def run_c04(ctx):
+    ctx.rule("C04-a", "J recursion as coded: J(∅) = 1 stored and returned; otherwise J(g) = Σ_{e∈edges(g)} J(g∖e)/ω(g∖e) with the same g∖e in both factors; "
+                      "memo read key = memo write key = g; iteration over all edges of g")
+    ctx.rule("C04-b", "cached_factor = J(last entry)·Γ(dod)/Π_e Γ(w_e)·π^(D·L/2)")
+    f = ctx.facts
+    try:
+        bs, fg, tb, jrec = builder_roles(ctx)
+    except RoleLost as e:
+        return ctx.lost("C04-a", str(e))
+    ctx.fn(jrec.path, tb.path)
+
+    def a():
+        def rec_hook(I, c, a):
+            if I.depth >= 1:
+                g = a[0]
+                return Num(Expr.atom(("call", "Jrec", g.key_)))
+            return NotImplemented
+        I = Interp(f, models={jrec.path: rec_hook})
+        table = Arr(("2^E",), lambda i: Struct("OptEntry", {
+            "j_function": Opt(Cond("key", "memo(%s)" % i), Num(Expr.atom(("call", "Jmemo", str(i))))),
+            "generalized_dod": Opt(True, Num(Expr.atom(("call", "omega", i if isinstance(i, str) else str(i))))),
+            "loop_number": Opt(True, Num(Expr.atom(("call", "loops", str(i))))),
+            "mass_momentum_spanning": Opt(True, Cond("key", "spanning(%s)" % i))}), name="table")
+        g = world.GraphIdVal("g")
+        # the table is handed over by &mut: bind it as a variable of a synthetic environment
+        env = Interp.Env()
+        env.define("T", table)
+        from ..kern.interp import PlaceRef
+        res = I.run_fn(jrec.path, [g, PlaceRef("T", [])], env)
+        k = fresh("k")
+        pk = "pop(g,edge(g,%s))" % k
+        rec = ssum(Expr.atom(("call", "Jrec", "pop(g,«%s»)" % k)) * Expr.atom(("call", "omega", "pop(g,«%s»)" % k)).inv(), k, "edges(g)")
+        got = scalar_of(res, "J(g)")
+        want = Expr.atom(("ite", "empty(g)", Expr.const(1), rec))
+        ok, why = equal_modulo_order(got, want, {}, set())
+        if not ok:
+            # the binder's entity inside the keys is positional: compare after renaming through the canonical key of the inner sum
+            pass
+        ctx.ob("C04-a", "J(g) == ite(empty(g), 1, Σ_{e∈edges(g)} J(g∖e)/ω(g∖e))", ok, jrec.path, "j-recursion",
+               detail="code ≠ reference (%s)\n        code:      %s\n        reference: %s" % (why, got.simplified().key()[:600], want.simplified().key()[:600]))
+        # memo: early return under the memo condition returns the memo value at key g
+        ers = [(c, v) for c, v in I.early_returns]
+        memo_ok = any(c == "memo(g)" and isinstance(v, Num) and v.expr == Expr.atom(("call", "Jmemo", "g")) for c, v in ers)
+        ctx.ob("C04-a", "memoised value is read at key g and returned unchanged", memo_ok, jrec.path, "memo-read-key", detail="early returns %s" % [c for c, _v in ers])
+        writes = [(path, val, conds) for (var, path, op, val, conds) in I.write_log if var == "T"]
+        keys = set(p[0][1] for p, v, c in writes if p and p[0][0] == "idx")
+        fields = set(p[1][1] for p, v, c in writes if len(p) > 1 and p[1][0] == "field")
+        base = [v for p, v, c in writes if "empty(g)" in c and isinstance(v, Opt) and isinstance(v.payload, Num) and v.payload.expr == Expr.const(1)]
+        ctx.ob("C04-a", "memo writes go to key g, field j_function only; the base case stores 1", keys == {"g"} and fields == {"j_function"} and len(base) == 1,
+               jrec.path, "memo-write-key", detail="write keys %s fields %s base-case writes %d" % (keys, fields, len(base)))
+    guarded_clause(ctx, "C04-a", jrec.path, "j-recursion", a)
+
+    def b():
+        tw = table_world(ctx)
+        got = scalar_of(tw.result.fields["cached_factor"], "cached_factor")
+        e = fresh("e")
+        want = (Expr.atom(("call", "J", ("ix", "last"))) * Expr.symbol("dod").fn("gamma") * Expr.atom(("prod", e, "E", leaf("w", e).fn("gamma"))).inv()
+                * Expr.atom(("sym", "pi")).powf(D * L / 2))
+        compare(ctx, "C04-b", "cached_factor == J(last)·Γ(dod)·(Π_e Γ(w_e))⁻¹·π^(D·L/2)", got, want, tb.path, "cached-factor", {}, ())
+        arg = getattr(tw, "jcall_arg", None)
+        ctx.ob("C04-b", "the recursion is started on the full subgraph id", isinstance(arg, world.GraphIdVal) and arg.key_ == "full", tb.path, "j-start-full")
+    guarded_clause(ctx, "C04-b", tb.path, "cached-factor", b)
 
 
 def run_c20b(ctx):
